@@ -95,7 +95,7 @@ def run(tier: str, seed: int) -> Report:
     rep.assumptions = ["growth item (DESIGN 5.6), not a listed property; the failure is injected by wrapping "
                        "connection.execute in the harness process", "real asyncio loop (aiosqlite worker thread)"]
     for c, want in (("ok", None), ("dev", "W_AtEnd")):
-        res = tlc.run_tlc("MC_DbWriter", f"MC_DbWriter_{c}.cfg", workers=2, timeout=300)
+        res = tlc.run_tlc("MC_DbWriter", f"MC_DbWriter_{c}.cfg", workers=1, timeout=300)
         rep.add_tlc(res, f"MC_DbWriter_{c}" + (" (negative control)" if want else ""))
         if res.violated != want:
             if want:
